@@ -146,3 +146,18 @@ Theorem C15_translated_sockets_bound_with_reuseport :
   ra = true /\ rp = true.
 Proof. exact sockets_bound_with_reuseport. Qed.
 Print Assumptions C15_translated_sockets_bound_with_reuseport.
+
+(* three statements of Server::new AS TRANSLATED: a worker has a health-check listener exactly when a health port
+   is configured — bound with both reuse options and registered, or the worker does not come up at all (never a
+   worker that serves with a configured health port and no listener); which recorder it runs with and how often it
+   publishes are read off the loaded configuration *)
+Require Import RV.Proofs.CodeServerNew.
+Theorem C15_translated_health_listener_iff_configured :
+  forall addr_ok bind_ok registered c,
+  gen_server_new_health_listener addr_ok bind_ok registered c
+  = match lc_health c with
+    | None => Ok None
+    | Some _ => if addr_ok && bind_ok true true && registered then Ok (Some (Bound false true true 1024%N)) else Panic site_gen
+    end.
+Proof. exact gen_server_new_health_listener_model. Qed.
+Print Assumptions C15_translated_health_listener_iff_configured.
